@@ -18,6 +18,7 @@ real model at the witness" (derivative symbols carry pseudo-witness values).
 """
 from __future__ import annotations
 
+import math
 import re
 import sys
 import time
@@ -26,7 +27,7 @@ import torch
 
 import C10
 import common as cm
-import symtorch.ext_c12  # noqa: F401  (registers the opt-in differentiable eigh / inverse stubs; only traces with uf_stubs=True use them)
+import symtorch.ext_c12 as ext  # registers the opt-in differentiable eigh / inverse stubs and the dead-branch records; only traces prepared by ext.prepare use them
 from symtorch import SymTensor, cur, from_ids, new_vars
 from symtorch.axioms import ground_axioms
 from symtorch.explore import Explorer, Goal, triage
@@ -413,6 +414,121 @@ def case_birthdeath(survival=True, serial=True):
     return [js], params, 'm', {'heights_order': True, 'domain': domain}
 
 
+# ---- the evaluation that switches rescaling on (calculate_treelikelihood_discrete_safe) and the one after it
+_THRESHOLDS = {}
+
+
+def partial_minima(case):
+    """min over sites / categories of the per-site maximum of every internal node's partials after the plain pass at the case's
+    initial point (real model, plain tensors): what calculate_treelikelihood_discrete_safe compares with model.threshold"""
+    specs, params, target, opts = case
+    plain = (specs, params, target, {k: v for k, v in opts.items() if k not in ('switch', 'threshold', 'history')})
+    with torch.no_grad():
+        A, _, _ = run_case(plain, plain_mk(plain, {}), 'value')
+    parts = A[target].partials
+    n = len(parts)
+    return [float(parts[node].max(-2)[0].min()) for node in range((n + 1) // 2, n)]
+
+
+def case_switch(tree_kind, subst, below, second=False, taxa4=False):
+    """TreeLikelihoodModel, tip partials, Weibull(2): the call on which the plain pass is declared to have underflowed (underflow
+    oracle) so that calculate_treelikelihood_discrete_safe runs with model.threshold = a value chosen so that at the initial point
+    `below` = 'all' (every internal node), 'root' (only the root) or a tuple of internal-node offsets (plus the root) has a site whose
+    largest partial is below it; the threshold comparisons and the per-site maxima are path conditions"""
+    if taxa4:
+        specs, params, target, opts = C10.case_likelihood('unrooted', 'weibull', subst, categories=2, rescale=True)
+        tree = cm.unrooted_tree_json(((0, 1), (2, 3)), 4)
+        tree['taxa'] = cm.taxa_json(4)
+        specs[0]['tree_model'] = tree
+        specs[0]['site_pattern']['alignment'] = cm.alignment_json({'t0': 'ACGA', 't1': 'CGTC', 't2': 'GTAG', 't3': 'GAAT'}, taxa='taxa')
+        params['tree.blens'] = P([0.1, 0.2, 0.9, 1.3, 0.25], 0.001, None)
+    elif tree_kind == 'ratio':
+        specs, params, target, opts = case_chain_eigen(subst, 'weibull', rescale=True) if subst != 'JC69' else case_chain('likelihood-rescaled')
+        if subst == 'JC69':
+            specs[0]['site_pattern']['alignment'] = cm.alignment_json(C10.SEQS_RESCALED, taxa='taxa')
+    else:
+        specs, params, target, opts = C10.case_likelihood('unrooted', 'weibull', subst, categories=2, rescale=True)
+    opts = {'switch': 'second' if second else 'first', 'below': below}
+    key = (tree_kind, subst, below, taxa4)
+    if key not in _THRESHOLDS:
+        mins = partial_minima((specs, params, target, opts))
+        if below == 'all':
+            thr = 1.0
+        else:
+            inside = [mins[-1]] if below == 'root' else [mins[i] for i in below]
+            outside = mins[:-1] if below == 'root' else [m for i, m in enumerate(mins[:-1]) if i not in below]
+            if not max(inside) < min(outside):
+                raise RuntimeError(f'no threshold puts exactly the nodes {below} below it: minima of the per-site maxima {mins}')
+            thr = math.sqrt(max(inside) * min(outside))
+        _THRESHOLDS[key] = (thr, mins)
+    opts['threshold'], opts['minima'] = _THRESHOLDS[key]
+    return specs, params, target, opts
+
+
+# ---- two-evaluation histories on ONE model object
+NEWICK_LENGTHS = '((t0:1.0,t1:1.0):1.5,t2:2.5);'  # heights 1.0 and 2.5: shifts [1.0, 1.5], ratio 0.4 of root height 2.5
+
+
+def build_single_parameter_tree(specs):
+    """ReparameterizedTimeTreeModel built through its public constructor with ONE plain Parameter [ratio, root height] (what a user
+    who does not go through JSON writes; from_json joins two Parameters in a CatParameter instead), then the models that refer to it"""
+    from torchtree.core.parameter import Parameter
+    from torchtree.core.utils import process_object, process_objects
+    from torchtree.evolution.tree_model import ReparameterizedTimeTreeModel, initialize_dates_from_taxa, parse_tree
+
+    dic = {}
+    taxa = process_object(cm.taxa_json(3), dic)
+    dtree = parse_tree(taxa, {'newick': cm.to_newick(((0, 1), 2))})
+    initialize_dates_from_taxa(dtree, taxa)
+    dic['tree.rrh'] = Parameter('tree.rrh', torch.tensor([0.4, 3.0], dtype=torch.float64))
+    dic['tree'] = ReparameterizedTimeTreeModel('tree', dtree, taxa, ratios_root_height=dic['tree.rrh'])
+    for sp in specs:
+        process_objects(sp, dic)
+    return dic
+
+
+def case_history(param, density, kind):
+    """density on a tree-transform chain, evaluated twice on one model object with a change of the tree parameters in between
+    (HISTORY_TEXT[kind]); param: 'ratio' (from_json: CatParameter of ratios and root height), 'shift' (from_json: one Parameter),
+    'single' (public constructor with one ratios_root_height Parameter)"""
+    opts = {}
+    if param == 'single':
+        tree, tparams = 'tree', {'tree.rrh': P([0.4, 3.0], None, None)}
+        opts['builder'] = build_single_parameter_tree
+
+        def domain(d, V):
+            return [d.lt(d.const(0.01), V['tree.rrh[0]']), d.lt(V['tree.rrh[0]'], d.const(0.99)), d.lt(d.const(0.05), V['tree.rrh[1]'])]
+
+        opts['domain'] = domain
+    else:
+        tree, tparams = ratio_tree() if param == 'ratio' else shift_tree()
+        if kind == 'keep':
+            tree['newick'] = NEWICK_LENGTHS
+            tree['keep_branch_lengths'] = True
+    if density == 'coalescent':
+        specs = [{'id': 'm', 'type': 'ConstantCoalescentModel', 'theta': {'id': 'theta', 'type': 'Parameter', 'tensor': [2.0]}, 'tree_model': tree}]
+        params = dict(tparams, theta=P([2.0], 0.01, None))
+    else:
+        specs, params, target, _ = case_chain('likelihood')
+        specs[0]['tree_model'] = tree
+        for k in ('tree.ratios', 'tree.root_height'):
+            del params[k]
+        params = dict(tparams, **params)
+        if param == 'single':
+            specs = [dict(cm.taxa_json(3))] + specs
+            specs[1]['site_pattern']['alignment']['taxa'] = 'taxa'
+            specs.pop(0)  # the builder creates the taxa itself; the alignment refers to them by id
+    opts['history'] = {'kind': kind, 'tree': list(tparams)}
+    return specs, params, 'm', opts
+
+
+def case_plinear_alias():
+    """two equal adjacent population sizes as an aliasing configuration: both grid values are ONE symbol, the segment between
+    them is flat (theta_1 - theta_0 is the literal constant 0) on every region"""
+    specs, params, target, opts = C10.case_plinear()
+    return specs, params, target, dict(opts, alias={'theta': [0, 0]})
+
+
 # C10's cases are differentiated as they are (every parameter un-batched); cases another builder adds to C10 under the
 # prefixes below are batching scenarios of models that have their own gradient cases here
 CASES = {k: v for k, v in C10.CASES.items()
@@ -446,6 +562,48 @@ CASES.update({
     'substitution:GTR.p_t': lambda: case_subst('GTR', 'p_t'),
     'substitution:GeneralSymmetric.p_t': lambda: case_subst('GeneralSymmetric', 'p_t'),
     'substitution:GeneralNonSymmetric.p_t (matrix_exp)': lambda: case_subst('GeneralNonSymmetric', 'p_t'),
+    # ---- the switching evaluation of the tree likelihood: calculate_treelikelihood_discrete_safe, and the evaluation after it
+    'switch:first call, unrooted JC69+Weibull, every node below the threshold': lambda: case_switch('unrooted', 'JC69', 'all'),
+    'switch:first call, unrooted JC69+Weibull, only the root below the threshold': lambda: case_switch('unrooted', 'JC69', 'root'),
+    'switch:first call, ratio tree + strict clock JC69+Weibull, every node below the threshold': lambda: case_switch('ratio', 'JC69', 'all'),
+    'switch:first call, ratio tree + strict clock JC69+Weibull, only the root below the threshold': lambda: case_switch('ratio', 'JC69', 'root'),
+    'switch:first call, unrooted HKY+Weibull, every node below the threshold': lambda: case_switch('unrooted', 'HKY', 'all'),
+    'switch:first call, unrooted HKY+Weibull, only the root below the threshold': lambda: case_switch('unrooted', 'HKY', 'root'),
+    'switch:first call, ratio tree + strict clock HKY+Weibull, only the root below the threshold': lambda: case_switch('ratio', 'HKY', 'root'),
+    'switch:first call, unrooted 4 taxa JC69+Weibull, (t0,t1) and the root below the threshold, (t2,t3) kept':
+        lambda: case_switch('unrooted', 'JC69', (0,), taxa4=True),
+    'switch:second call (after the switch), unrooted JC69+Weibull': lambda: case_switch('unrooted', 'JC69', 'all', second=True),
+    'switch:second call (after the switch), ratio tree + strict clock HKY+Weibull': lambda: case_switch('ratio', 'HKY', 'root', second=True),
+    'coalescent:piecewise-linear, two equal adjacent population sizes (one symbol)': case_plinear_alias,
+    # ---- two evaluations of ONE model object with a change of the tree parameters in between
+    'history:coalescent on ratio tree, assign': lambda: case_history('ratio', 'coalescent', 'assign'),
+    'history:coalescent on ratio tree, inplace': lambda: case_history('ratio', 'coalescent', 'inplace'),
+    'history:coalescent on ratio tree, requires_grad': lambda: case_history('ratio', 'coalescent', 'requires_grad'),
+    'history:coalescent on ratio tree, requires_grad_': lambda: case_history('ratio', 'coalescent', 'requires_grad_'),
+    'history:coalescent on ratio tree, keep': lambda: case_history('ratio', 'coalescent', 'keep'),
+    'history:likelihood on ratio tree, assign': lambda: case_history('ratio', 'likelihood', 'assign'),
+    'history:likelihood on ratio tree, inplace': lambda: case_history('ratio', 'likelihood', 'inplace'),
+    'history:likelihood on ratio tree, requires_grad': lambda: case_history('ratio', 'likelihood', 'requires_grad'),
+    'history:likelihood on ratio tree, requires_grad_': lambda: case_history('ratio', 'likelihood', 'requires_grad_'),
+    'history:likelihood on ratio tree, keep': lambda: case_history('ratio', 'likelihood', 'keep'),
+    'history:coalescent on shift tree, assign': lambda: case_history('shift', 'coalescent', 'assign'),
+    'history:coalescent on shift tree, inplace': lambda: case_history('shift', 'coalescent', 'inplace'),
+    'history:coalescent on shift tree, requires_grad': lambda: case_history('shift', 'coalescent', 'requires_grad'),
+    'history:coalescent on shift tree, requires_grad_': lambda: case_history('shift', 'coalescent', 'requires_grad_'),
+    'history:coalescent on shift tree, keep': lambda: case_history('shift', 'coalescent', 'keep'),
+    'history:likelihood on shift tree, assign': lambda: case_history('shift', 'likelihood', 'assign'),
+    'history:likelihood on shift tree, inplace': lambda: case_history('shift', 'likelihood', 'inplace'),
+    'history:likelihood on shift tree, requires_grad': lambda: case_history('shift', 'likelihood', 'requires_grad'),
+    'history:likelihood on shift tree, requires_grad_': lambda: case_history('shift', 'likelihood', 'requires_grad_'),
+    'history:likelihood on shift tree, keep': lambda: case_history('shift', 'likelihood', 'keep'),
+    'history:coalescent on single tree, assign': lambda: case_history('single', 'coalescent', 'assign'),
+    'history:coalescent on single tree, inplace': lambda: case_history('single', 'coalescent', 'inplace'),
+    'history:coalescent on single tree, requires_grad': lambda: case_history('single', 'coalescent', 'requires_grad'),
+    'history:coalescent on single tree, requires_grad_': lambda: case_history('single', 'coalescent', 'requires_grad_'),
+    'history:likelihood on single tree, assign': lambda: case_history('single', 'likelihood', 'assign'),
+    'history:likelihood on single tree, inplace': lambda: case_history('single', 'likelihood', 'inplace'),
+    'history:likelihood on single tree, requires_grad': lambda: case_history('single', 'likelihood', 'requires_grad'),
+    'history:likelihood on single tree, requires_grad_': lambda: case_history('single', 'likelihood', 'requires_grad_'),
     # ---- gap 2: birth-death models
     'bdsk:1 epoch, survival, serial tips': lambda: case_bdsk(1, True, True),
     'bdsk:1 epoch, no survival, serial tips': lambda: case_bdsk(1, False, True),
@@ -511,7 +669,67 @@ def weights(n):
     return [1.0 + k / 8.0 for k in range(n)]
 
 
-def evaluate_case(A, target, opts):
+# ------------------------------------------------------------------ variables of a case
+def elem_names(p, n, opts):
+    """variable name of every element of parameter p (opts['alias'][p][i] = index of the symbol element i shares)"""
+    al = opts.get('alias', {}).get(p)
+    return [f'{p}[{al[i] if al else i}]' for i in range(n)]
+
+
+def leaf_names(params, opts):
+    """{parameter: distinct variable names in order of first use}"""
+    out = {}
+    for p, (vals, lo, hi) in params.items():
+        seen = []
+        for nm in elem_names(p, len(vals), opts):
+            if nm not in seen:
+                seen.append(nm)
+        out[p] = seen
+    return out
+
+
+def initial_witness(params, opts):
+    W = {}
+    for p, (vals, lo, hi) in params.items():
+        for nm, v in zip(elem_names(p, len(vals), opts), vals):
+            W.setdefault(nm, float(v))
+    W.update(opts.get('start', {}))
+    return W
+
+
+# ------------------------------------------------------------------ the switching evaluation (underflow oracle)
+ORACLE_STUB = ('torch.isinf(log_p) in TreeLikelihoodModel.calculate_with_tip_partials is an underflow oracle that answers True on the '
+               'first evaluation of the model (over the reals, and on 3-4 taxa in float64, the plain pass never underflows)')
+
+
+class underflow_oracle:
+    """torch.isinf answers "every entry is infinite" for its first `n` calls inside the block: the evaluation on which the plain
+    pass is declared to have underflowed and calculate_treelikelihood_discrete_safe runs.  The same patch serves the symbolic run
+    (the answer is a plain bool tensor: no path condition) and the concrete replay on plain tensors."""
+
+    def __init__(self, n=1):
+        self.n = n
+
+    def __enter__(self):
+        self.real = torch.isinf
+        left = [self.n]
+        real = self.real
+
+        def fake(x):
+            if left[0] > 0:
+                left[0] -= 1
+                return torch.ones(tuple(x.shape), dtype=torch.bool)
+            return real(x)
+
+        torch.isinf = fake
+        return self
+
+    def __exit__(self, *exc):
+        torch.isinf = self.real
+        return False
+
+
+def evaluate_case(A, target, opts, params=()):
     """the tensor whose (weighted) sum is differentiated; same code for SymTensors and plain tensors"""
     obj = A[target]
     ev = opts.get('evaluate')
@@ -521,6 +739,19 @@ def evaluate_case(A, target, opts):
         return obj.p_t(A['t'].tensor.unsqueeze(-1))
     if opts.get('rescale'):
         obj.rescale = True
+    if opts.get('switch'):
+        # the call on which the plain pass reports -inf (oracle) and calculate_treelikelihood_discrete_safe runs with the
+        # model's threshold; opts['switch'] == 'second': the evaluation AFTER it (the model has set its rescale flag itself)
+        obj.threshold = opts['threshold']
+        with underflow_oracle(1):
+            val = obj()
+        if not obj.rescale:
+            raise RuntimeError('the underflow oracle did not switch rescaling on')
+        if opts['switch'] == 'second':
+            for p in params:  # a change event: the model would otherwise return its cached value
+                A[p].tensor = A[p].tensor
+            val = obj()
+        return val
     return obj()
 
 
@@ -530,6 +761,118 @@ def scalar_of(val, opts):
         flat = val.reshape(-1)
         return (flat * torch.tensor(weights(flat.numel()), dtype=flat.dtype)).sum()
     return val.sum()
+
+
+# ------------------------------------------------------------------ one evaluation of a case, with its history
+HISTORY_TEXT = {
+    'assign': 'evaluate at the JSON values; assign fresh tensors to the tree parameters (parameter.tensor = ...); evaluate',
+    'inplace': 'evaluate; write the new values INTO the same tensor objects (tensor[...] = v, optimiser idiom) + fire_parameter_changed(); evaluate',
+    'keep': 'model built by from_json with keep_branch_lengths (the parameter tensor is the one transform.inv returned); evaluate; '
+            'write in place + fire_parameter_changed(); evaluate',
+    'requires_grad': 'every parameter first does not require grad; evaluate; parameter.requires_grad = True on the same tensor objects; evaluate',
+    'requires_grad_': 'every parameter first does not require grad; evaluate; tensor.requires_grad_() on the same objects + '
+                      'fire_parameter_changed(); evaluate',
+}
+
+
+def build_case(specs, opts):
+    if opts.get('builder'):
+        register()
+        C10.register()
+        return opts['builder'](specs)
+    return build(specs)
+
+
+def run_case(case, mk, mode):
+    """Build the model of a case, drive it through the case's history and return (A, value of the LAST evaluation, leaves).
+    mk(p, requires_grad) -> tensor with the current value of parameter p (symbols in mode 'sym').
+    mode 'sym'  : under tracing, SymTensors
+         'grad' : plain tensors, real autograd; leaves = {p: tensor whose .grad is read after backward}
+         'value': plain or symbolic, a FRESH model evaluated once at the current values (no history): the reference"""
+    specs, params, target, opts = case
+    A = build_case(specs, opts)
+    hist = opts.get('history') if mode != 'value' else None
+    leaves = {}
+
+    def ev():
+        return evaluate_case(A, target, opts, list(params))
+
+    if hist is None:
+        for p in params:
+            leaves[p] = mk(p, mode == 'grad')
+            A[p].tensor = leaves[p]
+        return A, ev(), leaves
+    kind, tp = hist['kind'], hist['tree']
+    others = [p for p in params if p not in tp]
+    if kind == 'assign':
+        for p in others:
+            leaves[p] = mk(p, mode == 'grad')
+            A[p].tensor = leaves[p]
+        ev()
+        for p in tp:
+            leaves[p] = mk(p, mode == 'grad')
+            A[p].tensor = leaves[p]
+    elif kind in ('inplace', 'keep'):
+        for p in others:
+            leaves[p] = mk(p, mode == 'grad')
+            A[p].tensor = leaves[p]
+        if mode == 'grad':
+            # optimiser idiom: the tensors require grad, a first evaluation is back-propagated, then the step is written in place
+            for p in tp:
+                A[p].tensor.requires_grad_(True)
+                A[p].fire_parameter_changed()
+            # (retain_graph: parameters that are NOT touched by the step - site-model shape, clock rate - keep values cached
+            # by their models, e.g. the site rates, whose graph the second backward() walks again)
+            scalar_of(ev(), opts).backward(retain_graph=True)
+            with torch.no_grad():
+                for p in tp:
+                    A[p].tensor.copy_(mk(p, False))
+            for p in tp:
+                A[p].fire_parameter_changed()
+                leaves[p] = A[p].tensor
+            for x in leaves.values():
+                x.grad = None
+        else:
+            ev()
+            for p in tp:
+                A[p].tensor[...] = mk(p, False)
+                A[p].fire_parameter_changed()
+    elif kind in ('requires_grad', 'requires_grad_'):
+        for p in params:
+            leaves[p] = mk(p, False)
+            A[p].tensor = leaves[p]
+        if mode == 'sym':
+            # no leaf requires grad yet: torch records no history for anything computed now - which is what no_grad does
+            with torch.no_grad():
+                ev()
+        else:
+            ev()
+        for p in params:
+            if kind == 'requires_grad':
+                A[p].requires_grad = True
+            else:
+                A[p].tensor.requires_grad_()
+                A[p].fire_parameter_changed()
+    else:
+        raise KeyError(kind)
+    return A, ev(), leaves
+
+
+def plain_mk(case, vals):
+    specs, params, target, opts = case
+
+    def mk(p, rg):
+        base = params[p][0]
+        names = elem_names(p, len(base), opts)
+        uniq = leaf_names(params, opts)[p]
+        x = torch.tensor([vals.get(nm, initial_witness(params, opts)[nm]) for nm in uniq], dtype=torch.float64, requires_grad=rg)
+        if len(uniq) != len(names):  # aliased elements: one leaf feeds several elements, autograd sums
+            mk.alias[p] = x
+            return x[[uniq.index(nm) for nm in names]]
+        return x
+
+    mk.alias = {}
+    return mk
 
 
 _DERIV = re.compile(r'^d\d+~')
@@ -570,43 +913,163 @@ def structural_region_keys(d):
     d.to_str = to_str
 
 
-def make_body(cname):
-    specs, params, target, opts = CASES[cname]()
+def unstop(d, roots):
+    """the same expressions with every stop(x) replaced by x.  A stop node is the identity as a VALUE (it only cuts
+    differentiation): two gradients that differ only by stop wrappers inside their operands are the same function, and are
+    recognised as such by hash-consing instead of being sent to the solver."""
+    out = {}
+    for n in d.topo(list(roots)):
+        op, a = d.ops[n], d.args[n]
+        if op in ('const', 'var', 'bconst'):
+            out[n] = n
+        elif op == 'stop':
+            out[n] = out[a[0]]
+        elif op == 'add':
+            out[n] = d.add(out[a[0]], out[a[1]])
+        elif op == 'mul':
+            out[n] = d.mul(out[a[0]], out[a[1]])
+        elif op == 'div':
+            out[n] = d.div(out[a[0]], out[a[1]])
+        elif op == 'ipow':
+            out[n] = d.ipow(out[a[0]], a[1])
+        elif op == 'ite':
+            out[n] = d.ite(out[a[0]], out[a[1]], out[a[2]])
+        elif op == 'uf':
+            out[n] = d.uf(a[0], *[out[x] for x in a[1:]])
+        elif op == 'le':
+            out[n] = d.le(out[a[0]], out[a[1]])
+        elif op == 'lt':
+            out[n] = d.lt(out[a[0]], out[a[1]])
+        elif op == 'eq':
+            out[n] = d.eq(out[a[0]], out[a[1]])
+        elif op == 'and':
+            out[n] = d.and_(*[out[c] for c in a])
+        elif op == 'or':
+            out[n] = d.or_(*[out[c] for c in a])
+        elif op == 'not':
+            out[n] = d.not_(out[a[0]])
+        else:
+            raise KeyError(op)
+    return [out[r] for r in roots]
 
-    def body(t, V, W):
-        t.uf_stubs = True  # differentiable eigh / inverse stubs (symtorch/ext_c12.py); C12's traces only
-        d = t.dag
-        structural_region_keys(d)
-        A = build(specs)
-        for p, (vals, lo, hi) in params.items():
-            A[p].tensor = cm.var_tensor(V, [f'{p}[{i}]' for i in range(len(vals))])
-        val = evaluate_case(A, target, opts)
+
+def dead_branch_goal(t, out, cname):
+    """torch.where / masked_fill evaluate both branches and send a zero gradient through the unselected one: an operation in it
+    whose local derivative is not finite (x / 0, log 0, sqrt 0) makes 0 * inf = NaN, and the NaN reaches every leaf of that
+    branch while the value is fine.  For every where / masked_fill element whose result the value depends on, the obligation
+    "the branch that is NOT selected has no zero denominator, no log / sqrt argument that is not positive, and no division by
+    the literal constant 0" - hazards that the selected branch shares are the business of the value, not of this obligation."""
+    d = t.dag
+    cone_out = set(d.topo([out]))
+    memo = {}
+
+    def hazards(n):
+        if n not in memo:
+            hz = set()
+            for m in d.topo([n]):
+                op = d.ops[m]
+                if op == 'div':
+                    hz.add(('den', d.args[m][1]))
+                elif op == 'uf' and d.args[m][0] in ('log', 'sqrt'):
+                    hz.add(('pos', d.args[m][1]))
+                elif op == 'var' and m in t.undefined:
+                    hz.add(('undef', m))
+            memo[n] = hz
+        return memo[n]
+
+    def ok(hz):
+        cs = []
+        for kind, b in sorted(hz):
+            cs.append(d.FALSE if kind == 'undef' else (d.not_(d.eq(b, 0)) if kind == 'den' else d.lt(0, b)))
+        return d.and_(*cs)
+
+    parts = []
+    kinds = set()
+    for kind, rec in t.where_records:
+        for c, x, y, res in rec:
+            if res not in cone_out or x == y:
+                continue
+            hx, hy = hazards(x), hazards(y)
+            o = d.and_(d.or_(c, ok(hx - hy)), d.or_(d.not_(c), ok(hy - hx)))
+            if o != d.TRUE:
+                parts.append(o)
+                kinds.add(kind)
+    if not parts:
+        return None
+    node = d.and_(*parts)
+    g = Goal(f'every unselected branch of {" / ".join(sorted(kinds))} is well-defined (no zero denominator, no log / sqrt of a non-positive '
+             f'number): back-propagation through it yields 0, not NaN', node, hyps=ground_axioms(d, [node]),
+             signature=f'{cname}:gradient-not-finite:dead-branch')
+    g.param = None
+    return g
+
+
+def make_body(cname):
+    case = CASES[cname]()
+    specs, params, target, opts = case
+    leafs = leaf_names(params, opts)
+    fixed = opts.get('fixed', ())
+
+    def reduce_(d, val):
         vi = val._ids.reshape(-1).tolist()
         ws = weights(len(vi)) if opts.get('weighted') else None
         out = 0
         for k, i in enumerate(vi):
             out = d.add(out, i if ws is None else d.mul(d.const(ws[k]), i))  # (weighted) model().sum()
-        dep = set(d.variables([out]))
+        return out
+
+    def body(t, V, W):
+        ext.prepare(t)  # differentiable eigh / inverse stubs, where / masked_fill records, x / literal 0 (symtorch/ext_c12.py); C12's traces only
+        d = t.dag
+        structural_region_keys(d)
+
+        def mk(p, rg):
+            return cm.var_tensor(V, elem_names(p, len(params[p][0]), opts))
+
+        try:
+            A, val, _ = run_case(case, mk, 'sym')
+        except (ValueError, RuntimeError) as e:
+            if opts.get('switch') and 'non-empty' in str(e):
+                # the oracle said "underflow" but no node is below the threshold at this witness: torch.cat of an empty list of
+                # scalers - outside the contract of calculate_treelikelihood_discrete_safe (C03), nothing to differentiate
+                body.last = None
+                return []
+            raise
+        out = reduce_(d, val)
+        out_ref = out
+        if opts.get('history'):
+            # what the gradient has to be the derivative OF: the density at the current parameter values, i.e. the value a
+            # freshly built model reports for the same symbols (on the unchanged tree the two values are the same expression)
+            _, vref, _ = run_case(case, mk, 'value')
+            out_ref = reduce_(d, vref)
+        dep = set(d.variables([out_ref]))
         goals = []
-        fixed = opts.get('fixed', ())
-        for p, (vals, lo, hi) in params.items():
-            ids = [V[f'{p}[{i}]'] for i in range(len(vals))]
+        for p, names in leafs.items():
+            names = [nm for nm in names if nm not in fixed]
+            ids = [V[nm] for nm in names]
             g_auto = d.grad(out, ids, honour_stops=True)
-            g_true = d.grad(out, ids, honour_stops=False)
-            eqs = [d.eq(a, b) for i, (a, b) in enumerate(zip(g_auto, g_true)) if f'{p}[{i}]' not in fixed]
-            goal = d.and_(*eqs)
+            g_true = d.grad(out_ref, ids, honour_stops=False)
+            goal = d.and_(*[d.eq(a, b) for a, b in zip(unstop(d, g_auto), unstop(d, g_true))])
             goals.append(Goal(f'd value / d {p}: autograd gradient == derivative of the reported value', goal,
                               hyps=ground_axioms(d, [goal]), signature=f'{cname}:{p}:gradient-differs'))
             goals[-1].param = p
-            for i, ga in enumerate(g_auto):
-                if f'{p}[{i}]' in dep and f'{p}[{i}]' not in fixed:
-                    # must NOT be identically zero: the solver has to find a point with a non-zero gradient
-                    g = Goal(f'd value / d {p}[{i}] is not identically zero', d.TRUE, signature=f'{cname}:{p}:gradient-missing')
+            for nm, ga in zip(names, g_auto):
+                if nm in dep:
+                    # must NOT be identically zero: there has to be a point with a non-zero gradient
+                    g = Goal(f'd value / d {nm} is not identically zero', d.TRUE, signature=f'{cname}:{p}:gradient-missing')
                     g.nonzero_node = ga
-                    g.param = (p, i)
+                    g.param = nm
                     goals.append(g)
-        grads = {p: d.grad(out, [V[f'{p}[{i}]'] for i in range(len(params[p][0]))], True) for p in params}
-        pseudo = has_derivative_symbols(d, [g for gl in grads.values() for g in gl])
+        if out_ref != out:
+            g = Goal('the value reported after the history == the value of a freshly built model at the current parameters', d.eq(out, out_ref),
+                     hyps=ground_axioms(d, [d.eq(out, out_ref)]), signature=f'{cname}:value-after-history-is-stale')
+            g.param = None
+            goals.append(g)
+        dead = dead_branch_goal(t, out, cname)
+        if dead is not None:
+            goals.append(dead)
+        grads = {nm: g_ for p, names in leafs.items() for nm, g_ in zip(names, d.grad(out, [V[nm] for nm in names], True))}
+        pseudo = has_derivative_symbols(d, list(grads.values()))
         guard = []
         if pseudo:
             # vacuity guard of the eigen encoding: the derivative that a cut AT the eigendecomposition / matrix exponential would
@@ -616,7 +1079,7 @@ def make_body(cname):
 
             for p in params:
                 if p in ('kappa', 'rates', 'freqs'):
-                    ids = [V[f'{p}[{i}]'] for i in range(len(params[p][0]))]
+                    ids = [V[nm] for nm in leafs[p]]
                     g_cut = d.grad(out, ids, honour_stops=False, uf_deriv=cut)
                     g_true = d.grad(out, ids, honour_stops=False)
                     guard.append((p, d.and_(*[d.eq(a, b) for a, b in zip(g_cut, g_true)])))
@@ -625,9 +1088,13 @@ def make_body(cname):
 
     def domain(d, V):
         cs = []
+        done = set()
         for p, (vals, lo, hi) in params.items():
-            for i in range(len(vals)):
-                v = V[f'{p}[{i}]']
+            for nm in elem_names(p, len(vals), opts):
+                if nm in done:
+                    continue
+                done.add(nm)
+                v = V[nm]
                 if lo is not None:
                     cs.append(d.lt(d.const(lo), v))
                 if hi is not None:
@@ -636,41 +1103,42 @@ def make_body(cname):
             cs.append(d.lt(V['tree.heights[0]'], V['tree.heights[1]']))
         if opts.get('domain'):
             cs += opts['domain'](d, V)
-        for n in opts.get('fixed', ()):
+        for n in fixed:
             cs.append(d.eq(V[n], d.const(W[n])))
         return cs
 
-    W = {f'{p}[{i}]': float(v) for p, (vals, lo, hi) in params.items() for i, v in enumerate(vals)}
-    W.update(opts.get('start', {}))
-    return body, domain, W, (specs, params, target, opts)
+    W = initial_witness(params, opts)
+    return body, domain, W, case
 
 
 def real_gradients(cname, vals):
-    """plain tensors + real torch.autograd on the real model"""
-    specs, params, target, opts = CASES[cname]()
-    A = build(specs)
-    leaves = {}
-    for p, (base, lo, hi) in params.items():
-        x = torch.tensor([vals.get(f'{p}[{i}]', b) for i, b in enumerate(base)], dtype=torch.float64, requires_grad=True)
-        leaves[p] = x
-        A[p].tensor = x
-    out = scalar_of(evaluate_case(A, target, opts), opts)
+    """plain tensors + real torch.autograd on the real model, driven through the case's history: (value, {variable: gradient}, A)"""
+    case = CASES[cname]()
+    specs, params, target, opts = case
+    mk = plain_mk(case, vals)
+    A, val, leaves = run_case(case, mk, 'grad')
+    out = scalar_of(val, opts)
     out.backward()
-    return float(out.detach()), {p: (x.grad.clone() if x.grad is not None else None) for p, x in leaves.items()}, A
+    grads = {}
+    for p, names in leaf_names(params, opts).items():
+        g = mk.alias.get(p, leaves[p]).grad
+        for j, nm in enumerate(names):
+            grads[nm] = None if g is None else float(g[j])
+    return float(out.detach()), grads, A
 
 
-def finite_difference(cname, vals, p, i, h=1e-6, sides=False):
-    specs, params, target, opts = CASES[cname]()
+def finite_difference(cname, vals, name, h=1e-6, sides=False):
+    """central difference of the DENSITY: a freshly built model evaluated at the displaced point (no history)"""
+    case = CASES[cname]()
+    opts = case[3]
+    base = initial_witness(case[1], opts)
 
     def f(delta):
-        A = build(specs)
-        for q, (base, lo, hi) in params.items():
-            x = [vals.get(f'{q}[{k}]', b) for k, b in enumerate(base)]
-            if q == p:
-                x[i] += delta
-            A[q].tensor = torch.tensor(x, dtype=torch.float64)
+        v = dict(base, **vals)
+        v[name] = v[name] + delta
         with torch.no_grad():
-            return float(scalar_of(evaluate_case(A, target, opts), opts))
+            _, val, _ = run_case(case, plain_mk(case, v), 'value')
+            return float(scalar_of(val, opts))
 
     if sides:
         f0, fp, fm = f(0.0), f(h), f(-h)
@@ -679,31 +1147,44 @@ def finite_difference(cname, vals, p, i, h=1e-6, sides=False):
 
 
 def replay(cname, vals, first=None):
-    """real torch.autograd against central finite differences on the real model (plain tensors); `first`: parameter examined first"""
+    """real torch.autograd (through the case's history, with the stubs named in the case) against central finite differences of
+    the density on a freshly built real model (plain tensors); `first`: parameter examined first"""
     specs, params, target, opts = CASES[cname]()
     try:
         out, grads, _ = real_gradients(cname, vals)
     except Exception as e:
         return True, f'backward on the real model raised {type(e).__name__}: {e}'
+    leafs = leaf_names(params, opts)
     for p in sorted(params, key=lambda q: q != first):
-        base = params[p][0]
-        for i in range(len(base)):
-            if f'{p}[{i}]' in opts.get('fixed', ()):
+        for nm in leafs[p]:
+            if nm in opts.get('fixed', ()):
                 continue
-            fd = finite_difference(cname, vals, p, i)
-            g = None if grads[p] is None else float(grads[p][i])
+            fd = finite_difference(cname, vals, nm)
+            g = grads[nm]
             if g is None:
                 if abs(fd) > 1e-6:
-                    return True, f'{p}[{i}] receives no gradient but the numerical derivative is {fd}'
+                    return True, f'{nm} receives no gradient but the numerical derivative is {fd}'
                 continue
             if not (abs(g - fd) <= 1e-4 * max(1.0, abs(fd))):
                 # a point ON a boundary between path regions (a tie between event times: outside the claim) has a kink: the
                 # central difference straddles it while autograd returns the derivative of one side
-                _, fwd, bwd = finite_difference(cname, vals, p, i, sides=True)
+                _, fwd, bwd = finite_difference(cname, vals, nm, sides=True)
                 if abs(fwd - bwd) > 1e-4 * max(1.0, abs(fd)) and min(abs(g - fwd), abs(g - bwd)) <= 1e-3 * max(1.0, abs(fd)):
                     continue
-                return True, f'd/d{p}[{i}]: autograd {g} vs numerical derivative {fd}'
+                return True, f'd/d{nm}: autograd {g} vs numerical derivative {fd}'
     return False, 'agree with finite differences'
+
+
+def replay_dict(cname, vals):
+    """what a replay file carries: case, point, and the stubs the concrete replay runs with"""
+    opts = CASES[cname]()[3]
+    rp = {'case': cname, 'values': dict(vals)}
+    if opts.get('switch'):
+        rp['stubs'] = [ORACLE_STUB]
+        rp['threshold'] = opts['threshold']
+    if opts.get('history'):
+        rp['history'] = HISTORY_TEXT[opts['history']['kind']]
+    return rp
 
 
 def run_task(task, tr):
@@ -713,6 +1194,8 @@ def run_task(task, tr):
     cname, alt = (task, False) if isinstance(task, str) else (task[0], True)
     label = cname + (' [second starting point]' if alt else '')
     body, domain, W, (specs, params, target, opts) = make_body(cname)
+    if opts.get('switch'):
+        tr.stubs.add(ORACLE_STUB)
     if alt:
         # thorough tier: the same case explored from a second generic point (every input x 1.3; fixed elements kept)
         for n in W:
@@ -731,6 +1214,10 @@ def run_task(task, tr):
     def body2(t, V, Wt):
         goals = body(t, V, Wt)
         d = t.dag
+        nviol = len(tr.violations)
+        if body.last is None:
+            tr.notes.append(f'{label}: region at {Wt}: no node below the threshold, the safe kernel has nothing to rescale (outside its contract)')
+            return []
         for s_ in body.last['stubs']:
             tr.stubs.add(s_)
         if body.last['pseudo']:
@@ -742,7 +1229,7 @@ def run_task(task, tr):
                 sig = f'{cname}:backward-raises' if detail.startswith('backward on the real model raised') else \
                     opts.get('witness_signature', f'{cname}:gradient-differs-at-witness')
                 witness_failures.append((sig, f'{label}: on the real model at the region witness {Wt}: {detail}' + opts.get('witness_note', ''),
-                                         {'case': cname, 'values': dict(Wt)}))
+                                         replay_dict(cname, Wt)))
             else:
                 tr.notes.append(f'{label}: real torch.autograd == central finite differences at the witness (replaces the engine-vs-autograd '
                                 f'cross-check: derivative symbols of the eigen stubs have pseudo-witness values)')
@@ -750,16 +1237,25 @@ def run_task(task, tr):
             # engine autograd model vs real torch.autograd at this witness
             try:
                 out, grads, _ = real_gradients(cname, Wt)
-                for p, gl in body.last['grads'].items():
-                    for i, gi in enumerate(gl):
+                if any(g_ is not None and not math.isfinite(g_) for g_ in grads.values()):
+                    # the real gradient is not finite at this witness (NaN out of an unselected torch.where branch, ...): not a
+                    # disagreement between engine and autograd but a candidate violation, decided against finite differences
+                    bad, detail = replay(cname, Wt)
+                    if bad:
+                        witness_failures.append((f'{cname}:gradient-not-finite', f'{label}: on the real model at the region witness {Wt}: {detail}',
+                                                 replay_dict(cname, Wt)))
+                    else:
+                        tr.inconc(f'{label}: real torch.autograd gradient not finite at the witness {Wt}, finite differences undecided ({detail})')
+                else:
+                    for nm, gi in body.last['grads'].items():
                         ev = d.vals[gi]
-                        rv = 0.0 if grads[p] is None else float(grads[p][i])
+                        rv = 0.0 if grads[nm] is None else grads[nm]
                         if not (abs(ev - rv) <= 1e-6 * max(1.0, abs(rv))):
-                            tr.inconc(f'{label}: engine gradient model {ev} != real torch.autograd {rv} for {p}[{i}] at the witness')
-                tr.notes.append(f'{label}: engine autograd model == torch.autograd at witness')
+                            tr.inconc(f'{label}: engine gradient model {ev} != real torch.autograd {rv} for {nm} at the witness')
+                    tr.notes.append(f'{label}: engine autograd model == torch.autograd at witness')
             except Exception as e:
                 tr.violation(f'{cname}:backward-raises', f'{label}: backward on the real model raised {type(e).__name__}: {e}',
-                             {'case': cname, 'values': Wt})
+                             replay_dict(cname, Wt))
         # non-zero obligations are existential: decided separately (sat expected)
         dom = domain(d, V)
         hyps = dom + list(t.pcs)
@@ -829,7 +1325,7 @@ def run_task(task, tr):
                 points['list'] = [(pt, {}) for pt in pts]
             return points['list']
 
-        def concrete_nonzero(p, i):
+        def concrete_nonzero(nm):
             """the REAL model at a point of this region: torch.autograd gradient non-zero and equal to the central finite
             difference - a concrete point with a non-zero gradient (existence shown on the real code itself)"""
             for pt, cache in region_points():
@@ -839,12 +1335,12 @@ def run_task(task, tr):
                     except Exception:  # noqa  (a raising backward is reported by the witness cross-check above)
                         cache['grads'] = None
                 grads = cache['grads']
-                if grads is None or grads[p] is None:
+                if grads is None or grads[nm] is None:
                     continue
-                ga = float(grads[p][i])
-                if abs(ga) <= 1e-9:
+                ga = grads[nm]
+                if not abs(ga) > 1e-9:
                     continue
-                fd = finite_difference(cname, pt, p, i)
+                fd = finite_difference(cname, pt, nm)
                 if abs(ga - fd) <= 1e-4 * max(1.0, abs(fd)):
                     return True
             return False
@@ -865,14 +1361,14 @@ def run_task(task, tr):
                     st = 'proved' if g.nonzero_node == 0 else 'refuted'
                 elif explicit_model(d.eq(g.nonzero_node, 0), g.label):
                     st = 'refuted'
-                elif concrete_nonzero(*g.param):
+                elif concrete_nonzero(g.param):
                     # the witness is a coincidence (equal rates in both epochs: no dependence on the shift time) or a boundary point
                     st = 'refuted'
                     concrete.append(g.label)
                 elif pinned_solver(d.eq(g.nonzero_node, 0), [], g.label):
                     st = 'refuted'
                 else:
-                    st, r, _ = prove(d, hyps, d.eq(g.nonzero_node, 0), timeout=(6 if opts.get('rescale') else 20), tr=tr, label=g.label, parallel=True)
+                    st, r, _ = prove(d, hyps, d.eq(g.nonzero_node, 0), timeout=(6 if (opts.get('rescale') or opts.get('switch')) else 20), tr=tr, label=g.label, parallel=True)
                 if st == 'proved':
                     nonzero_pending.append((g, dict(Wt)))
                 elif st != 'refuted':
@@ -883,12 +1379,18 @@ def run_task(task, tr):
                 # whatever is not settled here goes to the full query of the explorer
                 bad, detail = replay(cname, Wt, first=g.param)
                 if bad:
-                    tr.violation(g.signature, f'{label}: {g.label} fails at {Wt}: {detail}', {'case': cname, 'values': dict(Wt)})
+                    tr.violation(g.signature, f'{label}: {g.label} fails at {Wt}: {detail}', replay_dict(cname, Wt))
                     continue
             keep.append(g)
+        if len(tr.violations) > nviol:
+            # a replayed counterexample exists for this case: the remaining open equalities are not pushed through the solver
+            rest = [g for g in keep if g.node not in (d.TRUE, d.FALSE)]
+            if rest:
+                tr.notes.append(f'{label}: {len(rest)} further obligations not queried after the replayed counterexample')
+            keep = [g for g in keep if g.node in (d.TRUE, d.FALSE)]
         return keep
 
-    rescale = bool(opts.get('rescale'))
+    rescale = bool(opts.get('rescale') or opts.get('switch'))  # per-site maxima are path conditions: explored regions only
     no_closure = rescale or bool(opts.get('no_closure'))
     ex = Explorer(W, domain, body2, tr, max_regions=(2 if rescale else opts.get('max_regions', 60)), timeout=(15.0 if rescale else 40.0),
                   closure_timeout=(8.0 if rescale else 30.0), label=label, check_defined=False,
@@ -910,7 +1412,7 @@ def run_task(task, tr):
         ok, detail = replay(cname, wit)
         if ok:
             tr.violation(g.signature, f'{label}: {g.label}: gradient is identically zero on a path region: {detail}',
-                         {'case': cname, 'values': wit})
+                         replay_dict(cname, wit))
         else:
             tr.notes.append(f'{label}: {g.label}: zero on one region, and the numerical derivative is zero there as well')
     done = set()
@@ -920,22 +1422,22 @@ def run_task(task, tr):
         # autograd gradient agrees with it (concrete by-product; otherwise undecided)
         if g.param in done:
             continue
-        p, i = g.param
+        nm = g.param
         try:
             _, grads, _ = real_gradients(cname, wit)
-            fd = finite_difference(cname, wit, p, i)
-            ga = None if grads[p] is None else float(grads[p][i])
+            fd = finite_difference(cname, wit, nm)
+            ga = grads[nm]
         except Exception:  # noqa
             fd, ga = 0.0, None
         if ga is not None and abs(fd) > 1e-9 and abs(ga - fd) <= 1e-4 * max(1.0, abs(fd)):
             done.add(g.param)
             tr.notes.append(f'{label}: {g.label}: solver undecided; the region witness is a point with non-zero gradient (autograd {ga}, numerical {fd})')
         elif ga is None and abs(fd) > 1e-6:
-            tr.violation(g.signature, f'{label}: {g.label}: {p}[{i}] receives no gradient at {wit} but the numerical derivative is {fd}',
-                         {'case': cname, 'values': wit})
+            tr.violation(g.signature, f'{label}: {g.label}: {nm} receives no gradient at {wit} but the numerical derivative is {fd}',
+                         replay_dict(cname, wit))
         else:
             tr.inconc(f'{label}: {g.label}: undecided (solver unknown; autograd {ga}, numerical derivative {fd} at the witness)')
-    triage(out, lambda vals: replay(cname, vals), tr, label, {'case': cname})
+    triage(out, lambda vals: replay(cname, vals), tr, label, {k: v for k, v in replay_dict(cname, {}).items() if k != 'values'})
     if witness_failures and not tr.violations:
         # autograd != finite differences on the real model at a witness, and no symbolic obligation accounts for it
         tr.violation(*witness_failures[0])
@@ -957,7 +1459,47 @@ def describe(cname, tr):
     from torchtree.evolution import tree_likelihood as tl
     from torchtree.evolution.substitution_model.abstract import NonSymmetricSubstitutionModel, SymmetricSubstitutionModel
 
-    if cname.startswith(('eigen:', 'substitution:', 'degenerate:')) or (cname.startswith('likelihood:') and ('/HKY' in cname or '/GTR' in cname)):
+    tr.bounds['dead branches'] = (
+        'torch.where / masked_fill back-propagate a zero gradient through the unselected branch; 0 * inf = NaN when an operation of that '
+        'branch has no finite local derivative there.  For every where / masked_fill element the value depends on: obligation "the '
+        'unselected branch has no zero denominator and no log / sqrt of a non-positive number on the region" (hazards shared with the '
+        'selected branch excluded); a division by the literal constant 0 (x - x is the constant 0 in the hash-consed DAG: flat segment of '
+        'the piecewise-linear population function) fails it outright; a solver point / region witness at which it fails is replayed: '
+        'backward() on the real model not finite while the finite difference is => violation.  A non-finite real gradient at any region '
+        'witness is decided the same way.  The piecewise-linear grid coalescent is explored with the root beyond the last grid point '
+        '(initial region), with theta_0 == theta_1 as a path region, and with both population sizes as ONE symbol (aliasing case)')
+    if cname.startswith('switch:'):
+        o = CASES[cname]()[3]
+        tr.fn(tl.TreeLikelihoodModel.calculate_with_tip_partials, tl.calculate_treelikelihood_discrete_safe,
+              tl.calculate_treelikelihood_discrete_rescaled, tl.calculate_treelikelihood_discrete)
+        tr.bounds['switching evaluation'] = (
+            'TreeLikelihoodModel with tip partials, Weibull(2), JC69 and HKY (differentiable eigen stubs), unrooted and ratio tree + strict clock, '
+            '3 taxa (one case on 4): the call on which torch.isinf(log_p) - an underflow oracle - reports the underflow, so that the plain pass is '
+            'followed by calculate_treelikelihood_discrete_safe with model.threshold set (public attribute) so that at the initial point every '
+            'internal node / only the root / a proper subset of the internal nodes has a site whose largest partial is below it; and the '
+            'evaluation after it (rescale flag set by the model itself, calculate_treelikelihood_discrete_rescaled).  Threshold comparisons and '
+            'per-site maxima are path conditions: decided on the <= 2 regions explored, no coverage certificate; a region in which no node is '
+            'below the threshold is outside the kernel\'s contract (C03).  Gradient w.r.t. branch lengths / ratios / root height / clock rate / '
+            'shape / kappa / frequencies.  Finite differences: a fresh model evaluated the same way (oracle included)')
+        tr.notes.append(f'{cname}: threshold {o["threshold"]!r}; minima over sites of the largest partial per internal node at the initial point: {o["minima"]}')
+    if cname.startswith('history:'):
+        from torchtree.core.parameter import Parameter
+        from torchtree.evolution.tree_model import ReparameterizedTimeTreeModel
+
+        tr.fn(ReparameterizedTimeTreeModel.update_node_heights, ReparameterizedTimeTreeModel.handle_parameter_changed,
+              ReparameterizedTimeTreeModel.from_json, Parameter.fire_parameter_changed)
+        tr.bounds['histories'] = (
+            'two evaluations of ONE model object (constant coalescent; JC69+Weibull likelihood through a strict clock) on a ratio tree built '
+            'by from_json (CatParameter), a shift tree built by from_json (one Parameter) and a ratio tree built through the public constructor '
+            'with a single ratios_root_height Parameter; between the evaluations: ' + '; '.join(f'[{k}] {v}' for k, v in HISTORY_TEXT.items())
+            + '.  The gradient of the SECOND value w.r.t. the current leaves (stops honoured) must equal the true derivative of the value a '
+              'freshly built model reports for the same symbols, must not be identically zero, and the two values must agree.  '
+              '"requires_grad" histories: the first evaluation is traced under no_grad (torch records no history while no leaf requires grad - '
+              'the same thing), so a result of the first evaluation that survives into the second one carries stop nodes; the concrete '
+              'cross-check at every witness performs the real toggle (requires_grad False -> True on the same tensor objects).  In-place '
+              'histories on the concrete side: tensors require grad, first value back-propagated (retain_graph), step written under no_grad, '
+              'fire_parameter_changed')
+    if cname.startswith(('eigen:', 'substitution:', 'degenerate:', 'switch:')) or (cname.startswith('likelihood:') and ('/HKY' in cname or '/GTR' in cname)):
         from torchtree.evolution.substitution_model import general, nucleotide
 
         tr.fn(SymmetricSubstitutionModel.p_t, NonSymmetricSubstitutionModel.p_t, nucleotide.HKY.q, nucleotide.GTR.q,
@@ -974,7 +1516,7 @@ def describe(cname, tr):
             '"degenerate:" cases (torch.autograd vs finite differences on the real model, signature ' + SIG_DEGENERATE + ')')
         tr.assumptions.add('frequencies are independent positive leaves (not constrained to the simplex): the derivative is taken '
                            'entry by entry, as autograd does')
-    if cname.startswith(('likelihood:', 'eigen:', 'degenerate:', 'chain:likelihood', 'chain:joint', 'chain4:likelihood', 'chain4c:likelihood')):
+    if cname.startswith(('likelihood:', 'eigen:', 'degenerate:', 'switch:', 'history:likelihood', 'chain:likelihood', 'chain:joint', 'chain4:likelihood', 'chain4c:likelihood')):
         tr.fn(tl.TreeLikelihoodModel._call, tl.calculate_treelikelihood_discrete, tl.calculate_treelikelihood_tip_states_discrete)
     if 'rescal' in cname:
         tr.fn(tl.calculate_treelikelihood_discrete_rescaled, tl.calculate_treelikelihood_tip_states_discrete_rescaled)
@@ -1001,7 +1543,7 @@ def describe(cname, tr):
         from torchtree.distributions.gmrf_integrated import GMRFGammaIntegrated
 
         tr.fn(GMRF._call, GMRFCovariate._call, GMRF.precision_matrix, GMRFGammaIntegrated._call)
-    if cname.startswith('chain'):
+    if cname.startswith(('chain', 'history:')):
         from torchtree.evolution.tree_height_transform import DifferenceNodeHeightTransform, GeneralNodeHeightTransform
 
         tr.fn(GeneralNodeHeightTransform._call, DifferenceNodeHeightTransform._call)
@@ -1031,7 +1573,7 @@ def tasks_for(tier):
                  and not (n.startswith('likelihood:') and ('/HKY' in n or '/GTR' in n) and n not in QUICK_EIGEN_C10)]
     # heavy cases first: better packing over the worker pool
     def weight(n):
-        if 'rescal' in n:
+        if 'rescal' in n or n.startswith('switch:'):
             return 0
         if n.startswith(('chain4:likelihood', 'bdsk:2 epochs, survival, 4', 'bdsk:3')):
             return 1
@@ -1065,6 +1607,11 @@ def body(chk):
                               'outside: origin omitted / origin as root edge and removal probability with several epochs of the BDSK model, '
                               'codon (MG94) and amino-acid models, soft / piecewise-exponential grid coalescents, '
                               'batched parameters (C10), 5 and more taxa, topologies other than the ones named in the bounds'}
+    chk.total.assumptions |= {'the switching evaluation is entered through an underflow oracle (torch.isinf answers True once): over the reals the '
+                              'plain pass never underflows; the floating-point side of the switch is C03\'s',
+                              'a parameter that requires grad but is NOT changed between two backward() calls keeps values cached by its models '
+                              '(site rates) whose graph the first backward() frees: the in-place histories back-propagate the first value with '
+                              'retain_graph=True; partial updates without retain_graph are outside'}
     pmap(run_task, tasks_for(chk.tier), chk.total)
 
 
